@@ -26,7 +26,9 @@ type streamCase struct {
 	Burst   int        `json:"burst"` // > 0: no schedule, every connection sends its whole stream at once, Burst rounds
 	// Defaults: the server keeps its default error callback (OnErrorFunc unset)
 	Defaults bool `json:"defaults"`
-	raw      []byte
+	// Slow: the handler takes 120 ms, the server's write timeout is 60 ms
+	Slow bool `json:"slow"`
+	raw  []byte
 }
 
 type connStep struct {
@@ -40,9 +42,15 @@ var sharedHandlerErr = packet.NewErrorParseTCP(packet.ErrServerFailure, "verif: 
 
 // devHandler is the device of ServerStream.tla (registers hold their own address, coil a is set iff
 // a mod 3 = 0, FC17 id 01 02 / status FF / extra 03) or one of the faulty handler behaviours.
-type devHandler struct{ kind string }
+type devHandler struct {
+	kind string
+	slow time.Duration // the handler takes this long before it answers
+}
 
 func (h *devHandler) Handle(ctx context.Context, received packet.Request) (packet.Response, error) {
+	if h.slow > 0 {
+		time.Sleep(h.slow)
+	}
 	switch h.kind {
 	case "errTyped":
 		return nil, packet.NewErrorParseTCP(packet.ErrServerFailure, "verif: typed handler error")
@@ -252,7 +260,7 @@ func (t *tapAssembler) ReceiveRead(ctx context.Context, received []byte, bytesRe
 // e2e: the same segments through server.Server over the in-memory listener; afterwards a second
 // connection performs a plain FC3 exchange ("never disturbs other connections")
 func runStreamE2E(c *streamCase) []Ev {
-	evs := []Ev{{"ev": "reset", "mode": "e2e", "frames": c.Frames, "streams": [][][]int{c.Frames}, "handler": c.Handler}}
+	evs := []Ev{{"ev": "reset", "mode": "e2e", "frames": c.Frames, "streams": [][][]int{c.Frames}, "handler": c.Handler, "slow": c.Slow, "defaults": c.Defaults}}
 	ln := newPipeListener()
 	taps := make(chan *tapAssembler, 4)
 	first := true
@@ -261,7 +269,11 @@ func runStreamE2E(c *streamCase) []Ev {
 	if c.Defaults {
 		onErr = nil // the library's default: log the error
 	}
-	srv := &server.Server{WriteTimeout: 2 * time.Second, ReadTimeout: 2 * time.Millisecond,
+	wTimeout, slow := 2*time.Second, time.Duration(0)
+	if c.Slow {
+		wTimeout, slow = 60*time.Millisecond, 120*time.Millisecond
+	}
+	srv := &server.Server{WriteTimeout: wTimeout, ReadTimeout: 2 * time.Millisecond,
 		OnErrorFunc: onErr,
 		AssemblerCreatorFunc: func(h server.ModbusHandler) server.PacketAssembler {
 			fmu.Lock()
@@ -271,7 +283,7 @@ func runStreamE2E(c *streamCase) []Ev {
 				kind = c.Handler
 				first = false
 			}
-			t := &tapAssembler{inner: &server.ModbusTCPAssembler{Handler: &devHandler{kind: kind}}, done: make(chan tapResult, 16)}
+			t := &tapAssembler{inner: &server.ModbusTCPAssembler{Handler: &devHandler{kind: kind, slow: slow}}, done: make(chan tapResult, 16)}
 			taps <- t
 			return t
 		}}
